@@ -67,7 +67,7 @@ def check(chk):
                         want = "self._active_rules" if c is fl else "self._rule"
                         chk.ob("PAIR-11", "the handle goes where %s.disable looks for it (%s)" % (c.name, want), stored == want, f.where(call),
                                detail="stored in " + stored, construct=f.ident, text="rule handle stored in " + stored)
-    chk.expect(n_rule >= 7, "C10: rule installation sites lost (%d)" % n_rule)
+    chk.need(n_rule >= 7, "PAIR-11", "flippers / autofires install their rules through the platform controller", repo.func(FL, "Flipper.enable"), "found %d of 7 installation sites" % n_rule)
     f = fl.methods["disable"]
     chk.analysed(f)
     cfg = f.cfg()
